@@ -1,10 +1,10 @@
 SPECIFICATION Spec
-CONSTANT Cfg <- MCCfg1
-CONSTANT MaxDepth = 3
-CONSTANT StartRows <- QuickRows
-CONSTANT StartCols <- QuickCols
-CONSTANT CarryCells <- QuickCells
-CONSTANT CarryShelves <- OneShelf
+CONSTANT Cfg <- MCCfg2
+CONSTANT MaxDepth = 2
+CONSTANT StartRows <- PairRows
+CONSTANT StartCols <- PairCols
+CONSTANT CarryCells <- PairCells
+CONSTANT CarryShelves <- SecondShelf
 CONSTRAINT Bounded
 INVARIANT Protocol
 INVARIANT MaskSound
